@@ -82,7 +82,7 @@ CLAIMED = {
         "against the CONTRACT of Sieve::_extend (full domain for cache lengths 10..30) — INV preserved, output exactly the primes up to the limit in order, "
         "iterator yields the next prime without gap or repeat. The contract of Sieve::_extend itself (INV kept, cache not shrunk, covers the limit, every "
         "vector/valarray/slice index in range) is checked only as a BOUNDED stand-in: a grid of concrete (cache length, segment size) x symbolic limit "
-        "(quick: lengths 10/12, segments 4/8 bits, limit <= 120; thorough: more lengths/segments, limits up to 1000 incl. the recursive branch), loops unwound "
+        "(quick: lengths 10/12, segments 4/8 bits, symbolic limit <= 120, plus three concrete limits 961/1000/1444 that take the recursive branch over several segments; thorough: more lengths/segments, limits up to 1000 incl. the recursive branch), loops unwound "
         "to exact maxima with unwinding assertions. Not a proof of _extend.",
    note="Trusted: container stubs (std::vector/valarray/slice/upper_bound/copy per the standard), ghost prime table (re-checked every run), CBMC. Known finding C33_ITER_STALE_INDEX (read past size() after the shared cache was cleared) is reported as KNOWN-FINDING.",
    tech="contract-based deductive verification with CBMC on mechanically extracted function text: operations checked against the callee contract of _extend from an arbitrary invariant state (invariant induction over histories); bounded model checking (--unwindset + unwinding assertions) as the stand-in for _extend's own contract"),
